@@ -389,6 +389,11 @@ func (e *Sim) Run(ctx *core.Ctx, idx int) {
 		up2 := &corev1.Pod{ObjectMeta: metav1.ObjectMeta{Namespace: "ns1", Name: "unrelated-2", Labels: map[string]string{"app": "agent", kit.MarkerLabel: "unrelated"}}, Spec: corev1.PodSpec{NodeName: "n1", Containers: []corev1.Container{{Name: "main", Image: "x"}}}}
 		up2.Status.Phase = corev1.PodRunning
 		w.S.Inject(up2)
+		// a hand-made debug copy of a daemon pod: every label of the first template, no name label, no owner
+		up3 := &corev1.Pod{ObjectMeta: metav1.ObjectMeta{Namespace: "ns1", Name: "unrelated-3-debug-copy", Labels: copyMap(kit.Tpl("A").Labels)}, Spec: corev1.PodSpec{NodeName: "n0", Containers: []corev1.Container{{Name: "main", Image: "img:A"}}}}
+		up3.Status.Phase = corev1.PodRunning
+		up3.Status.Conditions = []corev1.PodCondition{kit.ReadyCond(true, w.Now())}
+		w.S.Inject(up3)
 		if r.Intn(2) == 0 {
 			w.NewOldDaemonSet("ns2", "old-agent", map[string]string{"app": "old-agent"}, []string{"n0"})
 		}
@@ -594,6 +599,13 @@ func (e *Sim) actionFrom(w *World, r *rand.Rand, ns, name string, sh shape, edit
 				}
 				t.Spec.Containers[0].Env = env
 			}
+			if r.Intn(5) == 0 {
+				// the user takes the edit back while its canary is in flight: spec.template is the active template again
+				if inProgress, active, _ := w.CanaryInProgress(ns, name); inProgress && active != nil {
+					t = *active.Spec.Template.DeepCopy()
+					mk = kit.MarkerOfTemplate(&t)
+				}
+			}
 			w.SetTemplate(ns, name, t)
 			if r.Intn(4) == 0 {
 				// like a chart upgrade: the metadata labels of the object change together with the template
@@ -647,6 +659,127 @@ func (e *Sim) actionFrom(w *World, r *rand.Rand, ns, name string, sh shape, edit
 				})
 				w.tracef("user: re-apply the original (undefaulted) strategy of %s/%s", ns, name)
 			}
+		}},
+		{p.Edits / 3, func() {
+			// the user edits one parameter of the strategy in place while a rollout or a canary may be running
+			what := ""
+			w.S.Mutate(simapi.KindEDS, ns, name, func(o client.Object) {
+				e := o.(*v1.ExtendedDaemonSet)
+				ru := &e.Spec.Strategy.RollingUpdate
+				c := e.Spec.Strategy.Canary
+				switch r.Intn(11) {
+				case 8:
+					// auto-pause or auto-fail switched off or on while a canary may be paused by it
+					if c == nil {
+						return
+					}
+					b := r.Intn(2) == 0
+					if r.Intn(2) == 0 {
+						if c.AutoPause == nil {
+							c.AutoPause = &v1.ExtendedDaemonSetSpecStrategyCanaryAutoPause{}
+						}
+						c.AutoPause.Enabled = &b
+						what = fmt.Sprintf("autoPause.enabled=%v", b)
+					} else {
+						if c.AutoFail == nil {
+							c.AutoFail = &v1.ExtendedDaemonSetSpecStrategyCanaryAutoFail{}
+						}
+						c.AutoFail.Enabled = &b
+						what = fmt.Sprintf("autoFail.enabled=%v", b)
+					}
+				case 9:
+					// the canary node selector edited (or dropped) while canary nodes may already be selected
+					if c == nil {
+						return
+					}
+					switch r.Intn(4) {
+					case 0:
+						c.NodeSelector = nil
+					case 1:
+						c.NodeSelector = &metav1.LabelSelector{MatchLabels: map[string]string{"role": "agent"}}
+					case 2:
+						c.NodeSelector = &metav1.LabelSelector{MatchLabels: map[string]string{"zone": []string{"a", "b", "c"}[r.Intn(3)]}}
+					case 3:
+						c.NodeSelector = &metav1.LabelSelector{MatchExpressions: []metav1.LabelSelectorRequirement{{Key: "type", Operator: metav1.LabelSelectorOpDoesNotExist}}}
+					}
+					what = fmt.Sprintf("canary nodeSelector=%v", c.NodeSelector)
+				case 10:
+					// spec.selector (a node selector for this controller) set to something every simulated node carries, or dropped
+					if e.Spec.Selector == nil {
+						e.Spec.Selector = &metav1.LabelSelector{MatchLabels: map[string]string{"app": "agent"}}
+					} else {
+						e.Spec.Selector = nil
+					}
+					what = fmt.Sprintf("spec.selector=%v", e.Spec.Selector)
+				case 0:
+					mu := []intstr.IntOrString{intstr.FromInt(1), intstr.FromInt(2), intstr.FromString("50%"), intstr.FromString("100%")}[r.Intn(4)]
+					ru.MaxUnavailable = &mu
+					what = "maxUnavailable=" + mu.String()
+				case 1:
+					mp := []int32{1, 2, 250}[r.Intn(3)]
+					ru.MaxParallelPodCreation = &mp
+					what = fmt.Sprintf("maxParallelPodCreation=%d", mp)
+				case 2:
+					inc := []intstr.IntOrString{intstr.FromInt(1), intstr.FromInt(2), intstr.FromString("50%")}[r.Intn(3)]
+					ru.SlowStartAdditiveIncrease = &inc
+					what = "slowStartAdditiveIncrease=" + inc.String()
+				case 3:
+					f := []time.Duration{time.Second, 10 * time.Second}[r.Intn(2)]
+					e.Spec.Strategy.ReconcileFrequency = &metav1.Duration{Duration: f}
+					what = "reconcileFrequency=" + f.String()
+				case 4:
+					m := []intstr.IntOrString{intstr.FromInt(0), intstr.FromInt(1), intstr.FromString("25%")}[r.Intn(3)]
+					ru.MaxPodSchedulerFailure = &m
+					what = "maxPodSchedulerFailure=" + m.String()
+				case 5:
+					if c == nil {
+						return
+					}
+					if c.ValidationMode == v1.ExtendedDaemonSetSpecStrategyCanaryValidationModeManual {
+						c.ValidationMode = v1.ExtendedDaemonSetSpecStrategyCanaryValidationModeAuto
+						c.Duration = &metav1.Duration{Duration: []time.Duration{30 * time.Second, 3 * time.Minute}[r.Intn(2)]}
+						what = "validationMode=auto duration=" + c.Duration.Duration.String()
+					} else {
+						c.ValidationMode = v1.ExtendedDaemonSetSpecStrategyCanaryValidationModeManual
+						c.Duration, c.NoRestartsDuration = nil, nil
+						what = "validationMode=manual"
+					}
+				case 6:
+					if c == nil || c.ValidationMode == v1.ExtendedDaemonSetSpecStrategyCanaryValidationModeManual {
+						return
+					}
+					c.Duration = &metav1.Duration{Duration: []time.Duration{30 * time.Second, 3 * time.Minute, 10 * time.Minute}[r.Intn(3)]}
+					what = "canary duration=" + c.Duration.Duration.String()
+				case 7:
+					if c == nil {
+						return
+					}
+					if len(c.NodeAntiAffinityKeys) == 0 {
+						c.NodeAntiAffinityKeys = []string{"zone"}
+					} else {
+						c.NodeAntiAffinityKeys = nil
+					}
+					what = fmt.Sprintf("nodeAntiAffinityKeys=%v", c.NodeAntiAffinityKeys)
+				}
+			})
+			if what != "" {
+				w.tracef("user: edit the strategy of %s/%s: %s", ns, name, what)
+			}
+		}},
+		{p.Edits / 10, func() {
+			// the user deletes one of the replica sets by hand (the garbage collector removes its pods)
+			var own []string
+			for _, rs := range kit.RSs(w.S) {
+				if rs.Namespace == ns && rs.Labels[v1.ExtendedDaemonSetNameLabelKey] == name && rs.DeletionTimestamp == nil {
+					own = append(own, rs.Name)
+				}
+			}
+			if len(own) == 0 {
+				return
+			}
+			victim := own[r.Intn(len(own))]
+			_ = w.User.Delete(context.TODO(), &v1.ExtendedDaemonSetReplicaSet{ObjectMeta: metav1.ObjectMeta{Namespace: ns, Name: victim}})
+			w.tracef("user: delete replica set %s/%s by hand", ns, victim)
 		}},
 		{p.Holds, func() {
 			keys := []string{v1.ExtendedDaemonSetRollingUpdatePausedAnnotationKey, v1.ExtendedDaemonSetRolloutFrozenAnnotationKey, v1.ExtendedDaemonSetCanaryPausedAnnotationKey, v1.ExtendedDaemonSetCanaryUnpausedAnnotationKey}
@@ -705,6 +838,30 @@ func (e *Sim) actionFrom(w *World, r *rand.Rand, ns, name string, sh shape, edit
 				delete(o.(*v1.ExtendedDaemonSet).Annotations, v1.ExtendedDaemonSetOldDaemonsetAnnotationKey)
 			})
 			w.tracef("user: remove the old-daemonset annotation of %s/%s", ns, name)
+		}},
+		{p.OldDS * 0.7, func() {
+			// the user deletes the old DaemonSet with --cascade=orphan while the annotation still names it: its pods
+			// stay, owned by nobody, and are nobody's business any more
+			e0 := kit.GetEDS(w.S, ns, name)
+			if e0 == nil || e0.Annotations[v1.ExtendedDaemonSetOldDaemonsetAnnotationKey] == "" {
+				return
+			}
+			old := e0.Annotations[v1.ExtendedDaemonSetOldDaemonsetAnnotationKey]
+			if w.S.Peek(simapi.KindDS, ns, old) == nil {
+				return
+			}
+			for _, p := range kit.Pods(w.S) {
+				if p.Namespace != ns {
+					continue
+				}
+				for _, o := range p.OwnerReferences {
+					if o.Kind == "DaemonSet" && o.Name == old {
+						w.S.Mutate(simapi.KindPod, ns, p.Name, func(o client.Object) { o.SetOwnerReferences(nil) })
+					}
+				}
+			}
+			w.S.Remove(simapi.KindDS, ns, old)
+			w.tracef("user: delete the old DaemonSet %s/%s with --cascade=orphan (annotation kept)", ns, old)
 		}},
 		{0.08, func() {
 			// the ExtendedDaemonSet is deleted in the foreground and something holds the finalizer: the object,
